@@ -308,7 +308,7 @@ theorem flat_struct_all_absent (env : Env) (henc : env.encoded = false) (f g : N
 /-- Non-vacuity: a struct with a single and a repeating member meets `FlatOK`. -/
 example : FlatOK [⟨⟨"name", .builtin "string", 1, false, false, true, false, none⟩, 0, "string", ["n"]⟩,
                   ⟨⟨"tag", .builtin "int", 0, true, true, false, false, none⟩, 0, "int", ["1", "2", "3"]⟩] :=
-  ⟨by decide, by intro ff h; simp at h; rcases h with rfl | rfl <;> rfl,
+  ⟨by decide, by decide, by intro ff h; simp at h; rcases h with rfl | rfl <;> rfl,
    by intro ff h hu; simp at h; rcases h with rfl | rfl <;> simp_all⟩
 
 /-! Non-vacuity / worked example on the environment of a derived type. -/
